@@ -561,6 +561,20 @@ def _produce(ctx, producer, nv, d):
         p = os.path.join(d, "src." + {"h5": "h5", "ovf": "ovf", "vtk": "vtk"}[producer])
         f0.to_file(p)
         return df.Field.from_file(p)
+    if producer.startswith("ovf-") or producer.startswith("foreign-ovf1-"):
+        # a field with a past in ANOTHER representation: 4-byte binary (float32 data in the file), a foreign OVF 1.0 file
+        # (big-endian data in the file)
+        rep = producer.rsplit("-", 1)[1]
+        p = os.path.join(d, "src_" + producer + (".ovf" if producer.startswith("ovf-") else ".omf"))
+        if producer.startswith("ovf-"):
+            f0.to_file(p, representation=rep)
+        else:
+            if nv != 3:
+                raise engine.Skip()
+            R.write(p, version=1, representation=rep, pmin=tuple(float(x) for x in mesh.region.pmin),
+                    pmax=tuple(float(x) for x in mesh.region.pmax), n=shape, data=np.asarray(f0.array, dtype=float),
+                    meshunit="m", labels=None, units=["A/m"] * 3, style="oommf")
+        return df.Field.from_file(p)
     if producer == "xarray":
         return df.Field.from_xarray(f0.to_xarray())
     if producer == "rotate90":
@@ -573,7 +587,8 @@ def _produce(ctx, producer, nv, d):
 
 
 def unit_provenance(ctx):
-    producer = ctx.choose("producer", ["ctor", "h5", "ovf", "vtk", "xarray", "rotate90", "sel", "neg"])
+    producer = ctx.choose("producer", ["ctor", "h5", "ovf", "vtk", "xarray", "rotate90", "sel", "neg", "ovf-bin4", "ovf-txt",
+                                        "foreign-ovf1-bin8", "foreign-ovf1-bin4"])
     nv = ctx.choose("nvdim", [3, 1, 2])
     rep = ctx.choose("representation", ["bin8", "bin4", "txt"])
     with _Tmp() as d:
